@@ -357,7 +357,11 @@ class Bicomplex(object):
         return (self + (self ** 2 - 1) ** 0.5).log()
 
     def arcsinh(self):
-        return (self + (self ** 2 + 1) ** 0.5).log()
+        # arcsinh is odd: evaluate at +-z with non-negative real part to avoid the cancellation
+        # in z + sqrt(z**2 + 1) for negative arguments
+        sign = np.where(self.z1.real < 0, -1.0, 1.0)
+        z = self * sign
+        return sign * (z + (z ** 2 + 1) ** 0.5).log()
 
     def arctanh(self):
         return 0.5 * (((1 + self) / (1 - self)).log())
